@@ -32,9 +32,34 @@ class Ctx:
         c["stages"][stage] = dict({"evaluations": ev, "distinct_nontrivial": nontriv}, **(extra or {}))
 
 
+def _run_shard(ctx, st, binp, sd, nn, outdir, only):
+    """one driver run + evaluation in Coq; returns dict(rc, out, meta, bad_model, bad_spec, errors)"""
+    if st.get("gotest"):
+        # a Go test binary (virtual clock harness): parameters through the environment
+        import shutil
+        shutil.rmtree(outdir, ignore_errors=True)
+        os.makedirs(outdir, exist_ok=True)
+        env = dict(V.GOENV, VERIF_OUT=outdir, VERIF_SEED=str(sd), VERIF_N=str(nn), VERIF_TIER=ctx.tier)
+        rc, out, dt = V.run([binp, "-test.run", st["gotest"], "-test.timeout", "20m"], cwd=V.WORK, env=env, timeout=1500)
+    else:
+        rc, out, dt = V.run_driver(binp, st["driver"], sd, nn, ctx.tier, outdir,
+                                   only=(only["index"] if only else None), timeout=st.get("timeout", 6000),
+                                   extra_args=st.get("args"))
+    r = {"rc": rc, "out": out, "seed": sd, "n": nn}
+    if rc != 0:
+        return r
+    meta = json.load(open(os.path.join(outdir, "meta.json")))
+    r["meta"] = meta
+    r["bad_model"], r["bad_spec"], r["errors"] = V.coq_eval_cases(outdir, meta["shard_size"])
+    return r
+
+
 def stage_cases(ctx, st):
     """Standard stage: Go driver emits cases (inputs + what the implementation did) as Coq terms;
-    coqc evaluates model agreement and the spec predicate on every case."""
+    coqc evaluates model agreement and the spec predicate on every case. A stage may be split into
+    parallel runs of the driver with different generator seeds ("parallel": k): each case then
+    carries the seed and count of its own run, which is what a replay regenerates."""
+    import concurrent.futures as cf
     name = st["name"]
     binp = ctx.binaries[st.get("binary", "verifh")]
     n = st["n"][ctx.tier]
@@ -43,61 +68,66 @@ def stage_cases(ctx, st):
     done_enlarged = False
     while rounds:
         sd, nn, enlarged = rounds.pop(0)
-        outdir = os.path.join(V.WORK, "cases", "%s-%s%s" % (ctx.prop, name, "-x" if enlarged else ""))
+        base = os.path.join(V.WORK, "cases", "%s-%s%s" % (ctx.prop, name, "-x" if enlarged else ""))
         only = ctx.replay_only if ctx.replay_only and ctx.replay_only.get("stage") == name else None
+        par = 1 if only else max(1, min(int(st.get("parallel", 1)), nn))
         if only:
-            sd, nn = only["seed"], only["n"]
-        if st.get("gotest"):
-            # a Go test binary (virtual clock harness): parameters through the environment
-            import shutil
-            shutil.rmtree(outdir, ignore_errors=True)
-            os.makedirs(outdir, exist_ok=True)
-            env = dict(V.GOENV, VERIF_OUT=outdir, VERIF_SEED=str(sd), VERIF_N=str(nn), VERIF_TIER=ctx.tier)
-            rc, out, dt = V.run([binp, "-test.run", st["gotest"], "-test.timeout", "20m"], cwd=V.WORK, env=env, timeout=1500)
+            jobs = [(only["seed"], only["n"], base)]
+        elif par == 1:
+            jobs = [(sd, nn, base)]
         else:
-            rc, out, dt = V.run_driver(binp, st["driver"], sd, nn, ctx.tier, outdir,
-                                       only=(only["index"] if only else None), timeout=st.get("timeout", 3000),
-                                       extra_args=st.get("args"))
-        if rc != 0:
-            ctx.violation("driver %s failed against the current tree (correspondence %s no longer checks)" % (st["driver"], name),
-                          {"kind": "correspondence", "stage": name, "broken": "correspondence:" + name, "log": out[-3000:]}, no_input=True)
-            return
-        meta = json.load(open(os.path.join(outdir, "meta.json")))
-        descs = meta["descs"]
-        bad_model, bad_spec, errors = V.coq_eval_cases(outdir, meta["shard_size"])
-        if errors:
-            ctx.violation("case evaluation failed in Coq for stage %s" % name,
-                          {"kind": "correspondence", "stage": name, "broken": "correspondence:" + name, "log": errors[0][-3000:]}, no_input=True)
-            return
+            per = (nn + par - 1) // par
+            jobs = [(sd + 7919 * k, per, "%s-p%d" % (base, k)) for k in range(par)]
+        with cf.ThreadPoolExecutor(max_workers=len(jobs)) as ex:
+            results = list(ex.map(lambda j: _run_shard(ctx, st, binp, j[0], j[1], j[2], only), jobs))
+        for r in results:
+            if r["rc"] != 0:
+                ctx.violation("driver %s failed against the current tree (correspondence %s no longer checks)" % (st["driver"], name),
+                              {"kind": "correspondence", "stage": name, "broken": "correspondence:" + name, "log": r["out"][-3000:]}, no_input=True)
+                return
+            if r["errors"]:
+                ctx.violation("case evaluation failed in Coq for stage %s" % name,
+                              {"kind": "correspondence", "stage": name, "broken": "correspondence:" + name, "log": r["errors"][0][-3000:]}, no_input=True)
+                return
         if not enlarged:
-            ctx.add_cov(name, meta["evaluations"], meta["distinct_nontrivial"], descs, meta.get("distribution", {}),
-                        {k: meta[k] for k in meta if k not in ("descs", "distribution", "shard_size", "shards")})
-        bm = set(bad_model)
-        unmatched = []
-        for i in bad_spec:
-            fid = F.match(ctx.prop, descs[i]) if i not in bm else None
-            if fid:
-                ctx.known[fid] = F.text(fid)
-            else:
-                unmatched.append(i)
+            ev = sum(r["meta"]["evaluations"] for r in results)
+            nt = sum(r["meta"]["distinct_nontrivial"] for r in results)
+            dist = {}
+            for r in results:
+                for k, v in r["meta"].get("distribution", {}).items():
+                    dist[k] = dist.get(k, 0) + v if isinstance(v, (int, float)) else v
+            extra = {k: results[0]["meta"][k] for k in results[0]["meta"] if k not in ("descs", "distribution", "shard_size", "shards", "evaluations", "distinct_nontrivial")}
+            extra["parallel_runs"] = len(results)
+            ctx.add_cov(name, ev, nt, results[0]["meta"]["descs"], dist, extra)
+        unmatched, only_model = [], []   # (result, index)
+        for r in results:
+            descs = r["meta"]["descs"]
+            bm, bs = set(r["bad_model"]), set(r["bad_spec"])
+            for i in r["bad_spec"]:
+                fid = F.match(ctx.prop, descs[i]) if i not in bm else None
+                if fid:
+                    ctx.known[fid] = F.text(fid)
+                else:
+                    unmatched.append((r, i))
+            only_model += [(r, i) for i in r["bad_model"] if i not in bs]
         if unmatched:
-            i = min(unmatched, key=lambda j: V.desc_size(descs[j]))
+            r, i = min(unmatched, key=lambda x: V.desc_size(x[0]["meta"]["descs"][x[1]]))
             ctx.violation("spec predicate false on the implementation's output (stage %s, case %d; %d failing cases)" % (name, i, len(unmatched)),
-                          {"kind": "input", "stage": name, "case": descs[i], "index": i, "gen_seed": sd, "gen_n": nn,
-                           "spec_ok": False, "model_agrees": i not in bm,
+                          {"kind": "input", "stage": name, "case": r["meta"]["descs"][i], "index": i, "gen_seed": r["seed"], "gen_n": r["n"],
+                           "spec_ok": False, "model_agrees": i not in set(r["bad_model"]),
                            "how_to_replay": "bin/check %s --replay <this file>" % ctx.prop})
             return
-        only_model = [i for i in bad_model if i not in set(bad_spec)]
         if only_model and not enlarged and not only:
             # correspondence broken; search an enlarged case set for an input violating the spec
-            first = min(only_model, key=lambda j: V.desc_size(descs[j]))
-            ctx._pending = (name, descs[first], first, sd, nn, len(only_model))
+            r, first = min(only_model, key=lambda x: V.desc_size(x[0]["meta"]["descs"][x[1]]))
+            ctx._pending = (name, r["meta"]["descs"][first], first, r["seed"], r["n"], len(only_model))
             rounds.append((seed + 1000003, nn * 10, True))
             done_enlarged = True
             continue
         if only_model and only:
+            r, i = only_model[0]
             ctx.violation("model and implementation disagree on the replayed case (stage %s)" % name,
-                          {"kind": "correspondence", "stage": name, "case": descs[only_model[0]]}, no_input=True)
+                          {"kind": "correspondence", "stage": name, "case": r["meta"]["descs"][i]}, no_input=True)
     if done_enlarged and not any(v for v in ctx.violations if v["payload"].get("stage") == name):
         name, d, i, sd, nn, cnt = ctx._pending
         ctx.violation("model and implementation disagree (stage %s, %d cases) and no input violating the spec predicate was found" % (name, cnt),
